@@ -46,6 +46,10 @@ CHECKS = {
    text="(a) schema/ is compiled with every range-over-map and reflect MapKeys routed through the map-order seam; every (schema of U_2 that ranges over a map, operation, argument) is executed under the sorted order and under every single (thorough: every pair of) deviating iteration order(s), all permutations each; accept/reject and the returned value must be identical. (b) the argument's deep snapshot is compared before/after every call. (c) explicit-state BFS over call histories (depth 3, thorough 4, ~9 calls per schema incl. erroring, default-filling and unit-parsing calls) on one instance: states are deep dumps incl. unexported caches, and every reached instance must equal a fresh one on self-description and a probe set.",
    note="Trusted: maporder rewrite, DeepDump/Snapshot, the probe set; recursive scopes are not used as schema arguments here (C15 reports their non-termination).",
    technique="exhaustive exploration of map-iteration orders (environment nondeterminism, deviation-bounded) plus explicit-state breadth-first search over call histories with a differential fresh-instance oracle", design="DESIGN.md §4.1, §7 C12"),
+ "C14": dict(level="model_checking", engine="U",
+   text="144 (quick: 93) scope trees with a nested scope whose object id collides with the outer one, references at 4 positions (property, list, map, one-of) x 3 namespaces in outer and inner roots, objects with equal ids made distinguishable by marker enums. Per tree an explicit-state BFS over all ApplyNamespace sequences (depth <= 3 over {n1, n2, self}): in every state which reference is linked to which object (ObjectReady, target, ValidateReferences) must equal the lexical reference resolver of the model; the fully linked tree must behave like its mechanically inlined twin on every raw input for Unserialize/Validate/Serialize; three recursive graphs run on valid and invalid inputs of depth 0..50.",
+   note="Trusted: the reference resolver harness/ukit/link.go and the inliner; BFS nodes are rebuilt from fresh instances.",
+   technique="explicit-state breadth-first search over namespace-application histories of the real schema objects with a reference-model state comparison, plus differential inlined-twin oracle", design="DESIGN.md §7 C14"),
  "C15": dict(level="exploration", engine="U+C",
    text="Every spec A of U_2 as consumer against: a second instance of itself, every single-feature mutation of A at any depth (12 mutation operators), and ~70 unrelated specs incl. every nil/non-nil (min,max) combination for int, float, string and map sizes with overlapping and disjoint ranges; each ValidateCompatibility call runs under the sorted and every single deviating map iteration order (schema/ compiled with the map-order seam). A verdict must be returned (panics are caught, stack exhaustion and hangs kill the supervised worker and are attributed to the pair), be the same in every order, be 'compatible' for the schema against itself, and be 'incompatible' for every pair in the reference MustReject relation (base kind, element/key/value/property types, undeclared / missing required property, enforced id, enum values, discriminator / members, disjoint ranges).",
    note="Trusted: the MustReject reference (harness/ukit/compat.go), sound by construction (claims nothing outside it); degenerate min>max schemas are exempt from reflexivity and range claims.",
